@@ -39,7 +39,8 @@ def simple_func(name, nbody=1, static=False):
 # -- 80 columns ---------------------------------------------------------------------------------
 COL_KINDS = ["stmt-string", "stmt-ident", "stmt-expr", "decl", "global", "proto", "define", "line-comment", "block-first", "block-interior",
              "block-last", "block-one", "trailing-comment", "last-line-comment", "last-line-comment-nonl", "ctrl", "funchead", "member", "first-line-comment",
-             "last-line-global-nonl", "last-line-global"]
+             "last-line-global-nonl", "last-line-global", "line-comment-tabs", "block-one-tabs", "block-one-trailing-blanks", "line-comment-trailing-tab",
+             "stmt-trailing-comment-tabs", "block-interior-tabs"]
 
 
 def build_cols(d, kind, n, ctx):
@@ -104,7 +105,22 @@ def build_cols(d, kind, n, ctx):
         single = pad_to("/* ", " */", n, "c")
     elif kind == "trailing-comment":
         single = pad_to("int\tg_a; /* ", " */", n, "c")
-    if single is not None or kind in ("global", "proto", "define", "line-comment", "block-one", "trailing-comment", "first-line-comment"):
+    elif kind == "line-comment-tabs":      # tabs inside the text of a // comment (commented-out code)
+        single = pad_to("//\tint\tx;\t" + "\t" * (ctx["salt"] % 3), "", n, "c")
+    elif kind == "block-one-tabs":
+        single = pad_to("/*\tint\tx;\t", " */", n, "c")
+    elif kind == "block-one-trailing-blanks":  # pushed past the limit only by blanks after the closing */
+        base = "/* " + "c" * (60 + ctx["salt"]) + " */"
+        single = base + " " * (n - len(base)) if n > len(base) else None
+    elif kind == "line-comment-trailing-tab":
+        base = "// " + "c" * (60 + ctx["salt"])
+        single = base
+        while single is not None and vwidth(single) < n:
+            single += "\t" if vwidth(single + "\t") <= n else " "
+        if single is not None and vwidth(single) != n:
+            single = None
+    if single is not None or kind in ("global", "proto", "define", "line-comment", "block-one", "trailing-comment", "first-line-comment", "line-comment-tabs",
+                                      "block-one-tabs", "block-one-trailing-blanks", "line-comment-trailing-tab"):
         if single is None:
             return None
         if ftype == "h":
@@ -115,9 +131,24 @@ def build_cols(d, kind, n, ctx):
             lines += ["", "int\tft_a(int a);", "", "#endif"]
             return name, "\n".join(lines) + "\n", m
         pre = [] if kind == "first-line-comment" or ctx["pos"] == "first" else ["#include <unistd.h>", ""]
-        lines = hdr(name) + pre + [single] + ([""] if kind not in ("line-comment", "block-one", "first-line-comment") or ctx["salt"] % 2 else [])
+        lines = hdr(name) + pre + [single] + ([""] if kind not in ("line-comment", "block-one", "first-line-comment", "line-comment-tabs", "block-one-tabs") or ctx["salt"] % 2 else [])
         m = len(hdr(name)) + len(pre) + 1
         lines += simple_func("ft_a", 2)
+        return name, "\n".join(lines) + "\n", m
+    if kind == "stmt-trailing-comment-tabs":
+        ln = pad_to("\tft_put(a);\t/*\tc\t", " */", n, "c")
+        if ln is None:
+            return None
+        lines = hdr(name) + ["int\tft_a(int a)", "{", ln, "\treturn (a);", "}"]
+        return name, "\n".join(lines) + "\n", len(hdr(name)) + 3
+    if kind == "block-interior-tabs":
+        mid = pad_to("**\tint\tx;\t", "", n, "c")
+        if mid is None:
+            return None
+        block = ["/*", mid, "*/"]
+        lines = hdr(name)
+        m = len(lines) + 2
+        lines += block + simple_func("ft_a", 2)
         return name, "\n".join(lines) + "\n", m
     if kind in ("block-first", "block-interior", "block-last"):
         first, mid, last = "/*", "** about", "*/"
